@@ -81,7 +81,8 @@ def run(ctx):
                 continue
             nv = rng.choice([1, 2, 3])
             comment = rng.choice([b"", b"a comment", "Kommentar ü".encode("utf-16-le"), L.gen_content(rng, "random", 40)])
-            ss = P1.SpecSet1(files, nv, comment)
+            client = rng.choice([0, 0, 0x02000900, 0xFFFFFFFF, 0x0000BEEF])      # generator id at 0x0C: any value is conformant
+            ss = P1.SpecSet1(files, nv, comment, client=client)
             arc = ss.archive("arc")
             saved_files = [(n, d) for n, d, s in files if s]
             unsaved = [(n, d) for n, d, s in files if not s]
